@@ -771,8 +771,10 @@ class CitationToken(Token):
                     tuple, self.variation_editions
                 ) + cast(tuple, other.variation_editions)
                 # Remove duplicate editions after merge
-                self.exact_editions = tuple(set(self.exact_editions))
-                self.variation_editions = tuple(set(self.variation_editions))
+                self.exact_editions = tuple(dict.fromkeys(self.exact_editions))
+                self.variation_editions = tuple(
+                    dict.fromkeys(self.variation_editions)
+                )
                 return self
         return None
 
